@@ -15,6 +15,7 @@ import (
 const c02Marker = "mk<&'\">x"
 
 var rePlaceholder = regexp.MustCompile(`<[^<>&'"]* Value>`)
+
 func maxInt(a, b int) int {
 	if a > b {
 		return a
@@ -66,6 +67,11 @@ type c02Stringer struct{ s string }
 
 func (s c02Stringer) String() string { return s.s }
 
+// c02PStringer prints as text only through a pointer (pointer-receiver String); as a plain value it is a struct
+type c02PStringer struct{ s string }
+
+func (p *c02PStringer) String() string { return p.s }
+
 func c02Ctx(swapped bool) pongo2.Context {
 	ctx := zooContext(c02Marker)
 	delete(ctx, "f_safe")
@@ -78,6 +84,9 @@ func c02Ctx(swapped bool) pongo2.Context {
 	ctx["tf"] = func() string { return m }
 	ctx["tfa"] = func(a string) any { return a + m }
 	ctx["tany"] = any(m)
+	ctx["tpv"] = c02PStringer{m}
+	ctx["tpp"] = &c02PStringer{m}
+	ctx["tpl"] = []any{c02PStringer{m}, &c02PStringer{"p" + m}, c02PStringer{m}}
 	ctx["tfv"] = func() *pongo2.Value { return pongo2.AsValue(m) }
 	ctx["tfva"] = func(a any) *pongo2.Value { return pongo2.AsValue(fmt.Sprint(a) + m) }
 	ctx["tstruct"] = struct {
@@ -98,7 +107,7 @@ func c02Ctx(swapped bool) pongo2.Context {
 	return ctx
 }
 
-var c02CtxVars = []string{"t1", "t2", "tl", "tm", "ts", "tf()", "tfa(t1)", "tfv()", "tfva(t2)", "tfva(1)", "tany", "tstruct.Field", "tstruct.List", "tl.0", "tm.a", "z_str", "z_stringer", "z_safevalue"}
+var c02CtxVars = []string{"t1", "t2", "tl", "tm", "ts", "tf()", "tpv", "tpp", "tpl.0", "tpl.1", "tfa(t1)", "tfv()", "tfva(t2)", "tfva(1)", "tany", "tstruct.Field", "tstruct.List", "tl.0", "tm.a", "z_str", "z_stringer", "z_safevalue"}
 
 var c02OptOutFilters = map[string]bool{"safe": true, "truncatechars_html": true, "truncatewords_html": true}
 var c02MarkupFilters = map[string]bool{"urlize": true, "urlizetrunc": true, "linebreaks": true, "linebreaksbr": true}
